@@ -329,6 +329,12 @@ func run(sc *scenario) (coq string, tags []string, err error) {
 			o.Obs = map[string]any{"code": code, "items": obs, "err": fmt.Sprint(e)}
 			terms = append(terms, fmt.Sprintf("OGetBatch %d %s %d %s %s", o.WS, kit.List(its), code, kit.List(res), kit.List(calls)))
 			tagset[fmt.Sprintf("getbatch:%d", code)] = true
+			switch n := len(o.Items); {
+			case n > 16:
+				tagset["getbatch:keys>16"] = true
+			case n > 8:
+				tagset["getbatch:keys>8"] = true
+			}
 		case "read":
 			v := sc.Views[o.View]
 			var rows []obsRow
@@ -358,6 +364,12 @@ func run(sc *scenario) (coq string, tags []string, err error) {
 				if len(row.C) == 0 && row.S == "" {
 					tagset["F2:view-row-ccols-00-unreadable"] = true
 				}
+			}
+			// finding F24, recognised from the request and the observed refusal alone: the prefix given
+			// for the trailing column is shorter than the column's MinLen and the read is refused
+			// with a constraint violation
+			if code == 9 && o.Key.V != "" && len(o.Key.V)/2 < v.VarMin && strings.Contains(fmt.Sprint(e), "constraint violation") {
+				tagset["F24:prefix-shorter-than-minlen-refused"] = true
 			}
 			if code == 0 {
 				nset := 0
